@@ -30,7 +30,7 @@ CONFIGS = {
         "rule": "one run = one synthetic ruleset (tie-heavy pools, <= 250 pre-terminals) x flags; U = uninterrupted stream through "
                 "pcfg_guesser.main(); histories = sequences of quit points (k-th pop, or a quit already pending when the process starts / restores) each followed "
                 "by a --load cycle in a new process image with only S.sav surviving; quick: every single cut k=1..|U| when |U| <= 24, plus 5 sampled histories of 1-4 cuts; thorough: every single "
-                "cut of every world, every third followed by a pending quit, plus 8 sampled multi-cycle histories; plus retrain-between-quit-and-resume (uuid) probes; oracle RefResume (nothing needed is "
+                "cut of every world (150 evenly spaced cuts beyond 150 pre-terminals), every third followed by a pending quit, plus 8 sampled multi-cycle histories; plus retrain-between-quit-and-resume (uuid) probes; oracle RefResume (nothing needed is "
                 "lost, non-increasing, nothing above the saved probability, repeats only at exactly the saved probability); "
                 "non-trivial = world with >= 2 pre-terminals of exactly equal probability (so cuts land in tie groups); "
                 "distinct = distinct (ruleset, flags, cut sequences)",
@@ -310,14 +310,19 @@ def run_c08(tape, tier, res):
     if fresh:
         pass        # every cycle is a child interpreter (~0.3 s): sampled histories only
     elif tier == "thorough" or n <= 24:
-        # fault enumeration: every single cut point of this world
-        histories.extend([[("pop", k)] for k in range(1, n + 1)])
-        res.stats["worlds_with_every_cut_enumerated"] += 1
-        res.stats["cut_points_enumerated"] += n
+        # fault enumeration: every single cut point of this world (worlds above 150 pre-terminals: 150 evenly spaced
+        # cut points and both ends, so that one world stays within seconds also on a loaded machine)
+        ks = list(range(1, n + 1))
+        if n > 150:
+            ks = sorted({ks[int(i * n / 150.0)] for i in range(150)} | {1, 2, n - 1, n})
+        else:
+            res.stats["worlds_with_every_cut_enumerated"] += 1
+        histories.extend([[("pop", k)] for k in ks])
+        res.stats["cut_points_enumerated"] += len(ks)
     if fresh:
         nmulti = 3
     elif tier == "thorough":
-        histories.extend([[("pop", k), ("start",)] for k in range(1, n + 1, 3)])
+        histories.extend([[("pop", k), ("start",)] for k in range(1, n + 1, 3 if n <= 150 else 3 * (n // 150 + 1))])
         nmulti = 8
     else:
         nmulti = 5
